@@ -84,6 +84,8 @@ FactorVerdict2(ev, F, pat, m, n, u, uok, reuse, ilu, wfilu) ==
       \* U's diagonal lives in the supernodal storage; read as tokens so that the clause does not depend on the other
       \* values being finite (a zero pivot that was divided by leaves inf / NaN everywhere else)
       udiagTok(j) == LET e == SnodeEntry(ev.L, j, j) IN IF e[1] THEN At(ev.L.nzval, e[2]) ELSE (IF cplx THEN <<<<0, 0>>, <<0, 0>>>> ELSE <<0, 0>>)
+      symb == done /\ info = 0 /\ wf = "ok" /\ pcok /\ prok /\ ~ilu /\ ~wfilu /\ n <= 24
+      PAcol(j) == {ev.perm_r[e[1] + 1] : e \in {x \in pat : x[2] = ipc[j]}}
       udiag0 == info = 0 /\ m = n /\ \E k \in 0..(n - 1) : TokIsZero(udiagTok(k), cplx)
       bad ==
         (IF ~pcok THEN {"C02.perm_c_bijection"} ELSE {})
@@ -99,12 +101,18 @@ FactorVerdict2(ev, F, pat, m, n, u, uok, reuse, ilu, wfilu) ==
         \cup (IF done /\ info = 0 /\ m = n /\ n <= 10 /\ StructurallySingular(pat, m, n) /\ ~(numeric /\ r.st.sing # 0)
               THEN {"C04.structural_missed_inexact"} ELSE {})
         \cup (IF done /\ wf = "ok" /\ udiag0 THEN {"C02.U_zero_diagonal", "C04.success_with_zero_on_U_diagonal"} ELSE {})
+        \* the stored structure is exactly the symbolic factorization of Pr*A*Pc for the returned supernode partition
+        \cup (IF symb /\ ~LStructureSymbolic(ev.L, PAcol) THEN {"C03.L_structure_not_symbolic"} ELSE {})
+        \cup (IF symb /\ ~UStructureSymbolic(ev.L, ev.U, n, PAcol) THEN {"C03.U_structure_not_symbolic"} ELSE {})
+        \cup (IF symb /\ UStructureSymbolic(ev.L, ev.U, n, PAcol) /\ ~UUnreachedZero(ev.L, ev.U, n, PAcol, LAMBDA t : TokIsZero(t, cplx))
+              THEN {"C02.U_nonzero_outside_symbolic_structure"} ELSE {})
       arb ==
         \* anything TLC could not settle exactly goes to the rational side evaluator (rule S2 / float slice)
         (IF done /\ info = 0 /\ wf = "ok" /\ pcok /\ prok /\ ~ilu /\ ~(numeric /\ r.done = n /\ r.st.d2 /\ r.bad = {} /\ lvalsok /\ ~lmis /\ ~umis)
          THEN {"C02.LU_values"} ELSE {})
       cov ==
         (IF wf = "ok" /\ done THEN {"C03.wellformed"} ELSE {})
+        \cup (IF symb THEN {"C03.symbolic_structure_checked"} ELSE {})
         \cup (IF numeric /\ r.done > 0 THEN {"C02.pivot_rule_exact"} ELSE {})
         \cup (IF numeric /\ info = 0 /\ r.done = n /\ r.st.d2 THEN {"C02.full_D2"} ELSE {})
         \cup (IF numeric /\ info > 0 /\ atEnd THEN {"C04.singular_exact"} ELSE {})
@@ -543,6 +551,8 @@ OrderVerdict(ev, sc) ==
   LET m == ev.m  n == ev.n
       pat == PatternOf(ev.A0, FALSE)
       dofact == ev.fact = 0
+      big == n > 24            \* orders beyond the exhaustive range: the tree is not recomputed from its definition (cubic), the
+                               \* bijection, parent-above-child, postorder and view clauses still are
       my == ev.method = 8
       sym == ev.sym = 1
       midok == IsPermSeq(ev.perm_c_mid, n)
@@ -560,8 +570,9 @@ OrderVerdict(ev, sc) ==
                (IF ~midok THEN {"C10.ordering_not_a_bijection"} ELSE {})
                \cup (IF ~finok THEN {"C10.perm_c_not_a_bijection"} ELSE {})
                \cup (IF my /\ ev.perm_c_mid # ev.perm_c_in THEN {"C10.my_permc_overwritten"} ELSE {})
-               \cup (IF midok /\ finok /\ ~RespectsUpToPostorder(pat, m, n, given, final, sym) THEN {"C10.ordering_not_respected_up_to_postorder"} ELSE {})
-               \cup (IF finok /\ (~etok \/ et # ColEtreeDef(pat, m, n, final)) THEN {"C10.etree_is_not_the_column_etree"} ELSE {})
+               \cup (IF ~big /\ midok /\ finok /\ ~RespectsUpToPostorder(pat, m, n, given, final, sym) THEN {"C10.ordering_not_respected_up_to_postorder"} ELSE {})
+               \cup (IF ~big /\ finok /\ (~etok \/ et # ColEtreeDef(pat, m, n, final)) THEN {"C10.etree_is_not_the_column_etree"} ELSE {})
+               \cup (IF big /\ finok /\ ~etok THEN {"C10.etree_is_not_the_column_etree"} ELSE {})
                \cup (IF finok /\ etok /\ ~ParentAbove(et, n) THEN {"C10.parent_not_above_child"} ELSE {})
                \cup (IF finok /\ etok /\ ~sym /\ ParentAbove(et, n) /\ ~Postordered(et, n) THEN {"C10.not_postordered"} ELSE {})
                \cup (IF finok /\ (\E i \in Cols(n) : ev.colbeg[final[i] + 1] # ev.colptr[i + 1] \/ ev.colend[final[i] + 1] # ev.colptr[i + 2]) THEN {"C10.permuted_view"} ELSE {})
